@@ -417,6 +417,32 @@ func (i IntersectsFeature) toGeometryQuery(w World) Query {
 	return Empty{}
 }
 
+// ResolveFeatureQueries returns q with every IntersectsFeature replaced by
+// the geometry query for the named feature as it's seen in w. Layered worlds
+// use it before handing a query to one of their layers, since a single layer
+// may not hold the named feature.
+func ResolveFeatureQueries(q Query, w World) Query {
+	switch q := q.(type) {
+	case IntersectsFeature:
+		return q.toGeometryQuery(w)
+	case Typed:
+		return Typed{Type: q.Type, Query: ResolveFeatureQueries(q.Query, w)}
+	case Intersection:
+		resolved := make(Intersection, len(q))
+		for i, child := range q {
+			resolved[i] = ResolveFeatureQueries(child, w)
+		}
+		return resolved
+	case Union:
+		resolved := make(Union, len(q))
+		for i, child := range q {
+			resolved[i] = ResolveFeatureQueries(child, w)
+		}
+		return resolved
+	}
+	return q
+}
+
 func (i IntersectsFeature) Equal(other Query) bool {
 	if ii, ok := other.(IntersectsFeature); ok {
 		return i.ID == ii.ID
